@@ -208,7 +208,8 @@ func Known(tag string, c bool) {}
 func Note(key string, v int) {}
 
 // SetUnwind bounds every loop executed from now on to n iterations; if failName is non-empty an
-// overrun is a violation of that name (loop termination is the property), otherwise it makes the run inconclusive.
+// overrun is a violation of that name (loop termination is the property), otherwise it makes the run inconclusive;
+// the special name "#cut" ends such paths silently and records them as outside the claim.
 func SetUnwind(n int, failName string) {}
 
 // ExploreSchedules switches on schedule exploration with at most p pre-emptions.
